@@ -8,6 +8,8 @@ import (
 	"sort"
 	"strings"
 
+	"golang.org/x/tools/go/ssa"
+
 	"verif/checker/cfgx"
 )
 
@@ -190,4 +192,121 @@ func (c *Ctx) readsAcceptedPath(cs callSite, e ast.Expr, statFn *ast.FuncDecl, s
 		}
 	}
 	return false, "path expression " + types.ExprString(e) + " is not derived from the validated path"
+}
+
+// RuleFF1: every inclusion gets its own file object. The *fs.File handed to the scanner
+// that reads an included file is, on every value path, the fresh result of the file
+// constructor made for this inclusion - never an object kept in (and fetched from) a map
+// or a field. Directives remember the file they came from by pointer and are compared by
+// (file pointer, offset): a shared object makes the directives of two inclusions of one
+// file indistinguishable.
+func RuleFF1(c *Ctx) {
+	sc := c.Run.Begin("FF1", "the file object given to the scanner of an included file is a fresh constructor result on every value path (SSA value flow), not one shared through a container", 1)
+	defer sc.End()
+	corePk := c.P.Pkg("core")
+	scanT := c.Named("scanner", "Scanner")
+	if corePk == nil || scanT == nil {
+		sc.Undecided("anchors", "-", "unresolved anchor: core / scanner.Scanner")
+		return
+	}
+	// the scanner constructor: function of package scanner with a *fs.File parameter returning *Scanner
+	var ctor *types.Func
+	spk := c.P.Pkg("scanner")
+	for _, nm := range spk.Types.Scope().Names() {
+		f, ok := spk.Types.Scope().Lookup(nm).(*types.Func)
+		if !ok {
+			continue
+		}
+		sig := f.Type().(*types.Signature)
+		if sig.Results().Len() != 1 || sig.Params().Len() < 1 {
+			continue
+		}
+		if p, ok := sig.Results().At(0).Type().(*types.Pointer); !ok || !types.Identical(p.Elem(), scanT) {
+			continue
+		}
+		if p, ok := sig.Params().At(0).Type().(*types.Pointer); ok {
+			if n, ok := p.Elem().(*types.Named); ok && n.Obj().Name() == "File" {
+				ctor = f
+			}
+		}
+	}
+	if ctor == nil {
+		sc.Undecided("anchors", "-", "unresolved anchor: the scanner constructor taking a *fs.File")
+		return
+	}
+	isFresh := func(call *ssa.Call) bool {
+		callee := call.Call.StaticCallee()
+		if callee == nil {
+			return false
+		}
+		if o := callee.Origin(); o != nil {
+			callee = o // an instantiation of a generic constructor
+		}
+		if callee.Pkg == nil || !strings.HasSuffix(callee.Pkg.Pkg.Path(), "jsight-schema-go-library/fs") {
+			return false
+		}
+		return strings.HasPrefix(callee.Name(), "New")
+	}
+	readsFiles := func(f *types.Func) bool {
+		for _, g := range reachStatic(c.P, corePk, []*types.Func{f}) {
+			gd := c.P.Decl(g)
+			hit := false
+			ast.Inspect(gd.Body, func(n ast.Node) bool {
+				if call, ok := n.(*ast.CallExpr); ok {
+					if h := Callee(corePk.TypesInfo, call); h != nil && h.Pkg() != nil && h.Pkg().Path() == "os" && fsCall(h.Name()) {
+						hit = true
+					}
+				}
+				return true
+			})
+			if hit {
+				return true
+			}
+		}
+		return false
+	}
+	n := 0
+	for _, cs := range c.callSitesOf(ctor) {
+		if cs.Pk != corePk {
+			continue
+		}
+		caller := declObj(cs)
+		if caller == nil || !readsFiles(caller) {
+			continue // the root file comes from the API's caller
+		}
+		fn := c.P.SSAFunc(caller)
+		if fn == nil {
+			sc.Undecided("ssa:"+caller.Name(), c.P.Pos(cs.Call.Pos()), "no SSA form")
+			continue
+		}
+		// the SSA call instruction of this site
+		var arg ssa.Value
+		for _, b := range fn.Blocks {
+			for _, in := range b.Instrs {
+				if call, ok := in.(*ssa.Call); ok && call.Pos() == cs.Call.Lparen {
+					if sc0 := call.Call.StaticCallee(); sc0 != nil && sc0.Name() == ctor.Name() && len(call.Call.Args) > 0 {
+						arg = call.Call.Args[0]
+					}
+				}
+			}
+		}
+		n++
+		key := c.P.DeclName(cs.Decl)
+		if arg == nil {
+			sc.Undecided(key, c.P.Pos(cs.Call.Pos()), "the constructor call was not found in the SSA form")
+			continue
+		}
+		v, why, nodes := c.flowFrom(fn, arg, isFresh)
+		switch v {
+		case flowAll:
+			sc.Holds(key, c.P.Pos(cs.Call.Pos()), fmt.Sprintf("the scanner's file is a fresh fs constructor result on every value path (%d SSA values walked)", nodes))
+		case flowSkips:
+			sc.Violation(key, c.P.Pos(cs.Call.Pos()), "the file object handed to the scanner of an included file can come from somewhere else than a constructor call made for this inclusion ("+why+"): two inclusions of one file then share one *fs.File, and their directives compare equal (same file pointer, same offset) - the second Path under a second URL is reported as 'not a unique directive'")
+		default:
+			sc.Undecided(key, c.P.Pos(cs.Call.Pos()), "value flow not decided: "+why)
+		}
+	}
+	if n == 0 {
+		sc.Undecided("sites", "-", "no scanner constructor call behind a file read found in core")
+	}
 }
